@@ -23,8 +23,8 @@ ASSUMPTIONS = [
     "fake Device/Storage/Interface classes are the repository's test fakes (tests/annet/test_mesh/fakes.py)",
     "handlers set address families and shared options on the session only (per-peer families would legitimately differ between the two ends)",
 ]
-FLOORS = {"quick": {"topologies": 250, "executions": 3000, "mirrored_pairs": 600, "permutations_compared": 1500, "conflicts_expected": 30, "merge_law_checks": 3000},
-          "thorough": {"topologies": 9000, "executions": 100000, "mirrored_pairs": 20000, "permutations_compared": 50000, "conflicts_expected": 1000, "merge_law_checks": 100000}}
+FLOORS = {"quick": {"topologies": 250, "executions": 3000, "mirrored_pairs": 600, "permutations_compared": 1500, "conflicts_expected": 30, "merge_law_checks": 3000, "shared_handler_constants_checked": 200},
+          "thorough": {"topologies": 9000, "executions": 100000, "mirrored_pairs": 20000, "permutations_compared": 50000, "conflicts_expected": 1000, "merge_law_checks": 100000, "shared_handler_constants_checked": 7000}}
 
 
 def plan(tier, seed):
@@ -104,7 +104,13 @@ def gen_rules(rng, topo):
             rules.append(dict(base, role="extra2", send_community=True, families=["ipv4_unicast"]))
     if "rr" in kinds and "spine" in kinds and rng.random() < 0.8:
         rules.append({"type": "indirect", "left": "spine{n}", "right": "rr{r}", "net": rng.randint(1, 200), "asn_l": 64500, "asn_r": 64600,
-                      "families": ["ipv4_unicast"], "iface": rng.choice(["none", "svi", "lo0", "lo0+subif"]), "role": "base"})
+                      "families": ["ipv4_unicast"], "iface": rng.choice(["none", "svi", "lo0", "lo0+subif"]), "role": "base",
+                      "session": rng.choice([{}, {"bfd": True}, {"bfd": True, "send_labeled": True}, {"send_community": True}])})
+        if "leaf" in kinds and rng.random() < 0.7:
+            # a second indirect rule reaching the same route reflectors, whose handler sets other (or no) session-level options
+            rules.append({"type": "indirect", "left": "leaf{m}", "right": "rr{r}", "net": rng.randint(201, 250), "asn_l": 64700, "asn_r": 64600,
+                          "families": [rng.choice(["ipv4_unicast", "ipv6_unicast"])], "iface": "none", "role": "base",
+                          "session": rng.choice([{}, {}, {"multipath": True}])})
     if rng.random() < 0.4:
         rules.append({"type": "virtual", "mask": "leaf{m}", "num": [1, 2][: rng.randint(1, 2)], "svi": rng.randint(10, 20), "asn": 64900, "role": "base"})
     if rng.random() < 0.6:
@@ -129,6 +135,16 @@ def addrs_for(rule, li, ri, lports):
     return "10.%d.%d.%d/31" % (rule["net"], third, 2 * k), "10.%d.%d.%d/31" % (rule["net"], third, 2 * k + 1)
 
 
+SHARED_FAMILIES = {}  # (case id, rule index) -> the set object a handler assigns on every invocation (a module-level constant in real handlers)
+
+
+def shared_families(rules, idx):
+    key = (id(rules), idx)
+    if key not in SHARED_FAMILIES:
+        SHARED_FAMILIES[key] = set(rules[idx]["families"])
+    return SHARED_FAMILIES[key]
+
+
 def make_registry(rules, order):
     from annet.mesh import MeshRulesRegistry, separate_ports, united_ports, Left, Right
     reg = MeshRulesRegistry()
@@ -143,12 +159,13 @@ def make_registry(rules, order):
             elif r["filter"] == "ne":
                 flt = [getattr(Left, lg).cast_(int) != 99]
 
-            def handler(left, right, session, r=r):
+            def handler(left, right, session, r=r, idx=idx):
                 li, ri = first_int(left.match), first_int(right.match)
                 la, ra = addrs_for(r, li, ri, left.ports)
                 left.addr, right.addr = la, ra
                 left.asnum, right.asnum = r["asn_l"] + li, r["asn_r"] + ri
-                session.families = set(r["families"])
+                # even rule indices hand out one shared constant set (as `V4 = {"ipv4_unicast"}` at module level would), odd ones a fresh set
+                session.families = shared_families(rules, idx) if idx % 2 == 0 else set(r["families"])
                 if r.get("bfd"):
                     session.bfd = True
                 if r.get("send_community"):
@@ -174,6 +191,8 @@ def make_registry(rules, order):
                 left.addr, right.addr = "172.16.%d.%d/32" % (r["net"], li), "172.16.%d.%d/32" % (r["net"], 100 + ri)
                 left.asnum, right.asnum = r["asn_l"], r["asn_r"]
                 session.families = set(r["families"])
+                for k_, v_ in r.get("session", {}).items():
+                    setattr(session, k_, v_)
                 if r["iface"] == "svi":
                     left.svi = right.svi = 77
                 elif r["iface"].startswith("lo0"):
@@ -266,6 +285,20 @@ def check_case(seed, acc):
     rng = random.Random(seed)
     topo = gen_topology(rng)
     rules = gen_rules(rng, topo)
+    try:
+        w = _check_case(seed, acc, rng, topo, rules)
+    finally:
+        mine = [k for k in SHARED_FAMILIES if k[0] == id(rules)]
+        for k in mine:
+            acc.count("shared_handler_constants_checked")
+            if SHARED_FAMILIES[k] != set(rules[k[1]]["families"]):
+                acc.violation("C15/handler-constant-modified", "a value object a handler assigns (a set shared by all its invocations) was modified by the executor: later sessions see other families",
+                              {"seed": seed, "topology": topo, "rules": rules, "rule_index": k[1], "constant_now": sorted(SHARED_FAMILIES[k]), "assigned": rules[k[1]]["families"]})
+            del SHARED_FAMILIES[k]
+    return w
+
+
+def _check_case(seed, acc, rng, topo, rules):
     w = {"seed": seed, "topology": topo, "rules": rules}
     n = len(rules)
     base_order = list(range(n))
@@ -469,13 +502,16 @@ def run_merge(spec, acc):
             acc.violation("C15/merge/field-law", "merge(a, b) does not follow the declared merger of a field (Unite = union, Concat = concatenation, unset never overrides set)",
                           dict(w, expected=repr(exp), got=repr(got)))
             continue
-        if vars(a) != dict(vars(a)) or False:
-            pass
+        if repr(a) != w["a"] or repr(b) != w["b"]:
+            acc.violation("C15/merge/argument-modified", "merge(a, b) modified one of its arguments (the values handlers assigned)", dict(w, a_after=repr(a), b_after=repr(b)))
+            continue
         # associativity when defined
         try:
             l = BM.merge(BM.merge(a, b), c)
             r = BM.merge(a, BM.merge(b, c))
-            if vars(l) != vars(r):
+            if repr(a) != w["a"] or repr(b) != w["b"]:
+                acc.violation("C15/merge/argument-modified", "merge modified one of its arguments (the values handlers assigned)", dict(w, a_after=repr(a), b_after=repr(b)))
+            elif vars(l) != vars(r):
                 acc.violation("C15/merge/not-associative", "merge is not associative on instances where it is defined", dict(w, c=repr(c)))
         except BM.MergeForbiddenError:
             pass
